@@ -130,6 +130,22 @@ def reader_byte_sweeps(rng, tier="quick"):
             yield Case(chunk, {"k3": "read", "sweep": name, "start": "sweep", "et": 0, "data": "-"})
 
 
+def reader_sweep_oracle(c, out, prefix):
+    """judges `impl.dec.read_*` lines (slice decoder vs reader on the same bytes) for other properties that run the
+    byte sweeps: same header, or a rejection for the same reason"""
+    for line, o in zip(c.lines, c.impl):
+        if o and o.startswith("slice=") and "|read=" in o:
+            s_, r_ = o[6:].split("|read=", 1)
+            arg = line.split("\t")[-1]
+            data = bytes.fromhex(arg) if arg != "-" else b""
+            if line.startswith("impl.dec.read_iph") and len(data) >= 6 and data[0] >> 4 == 6 and data[4] == 0 and data[5] == 0:
+                continue
+            tmp = []
+            check_reader(line.split("\t", 1)[0], s_, r_, tmp)
+            for n, d in tmp:
+                out.append((prefix + n, dict(d, line=line[:200])))
+
+
 def is_trivial(c):
     if "sweep" in c.meta:
         return False
